@@ -93,7 +93,7 @@ def gen_block(rng, depth, budget):
             out.append(['seterr', gen_kwargs(rng)])
         elif r < 0.30:
             kind = rng.choice(KINDS) if rng.random() < 0.9 else 'bogus'
-            out.append(['seterrcall', kind, rng.randrange(3)])
+            out.append(['seterrcall', kind, rng.randrange(4)])
         elif r < 0.62 or depth >= 4:
             out.append(['probe', rng.choice(KINDS), int(rng.random() < 0.8),
                         rng.randrange(3)])
@@ -212,10 +212,17 @@ class Ctx:
         return self.stack[-1]
 
 
+class CallbackBoom(Exception):
+    """raised by the registered callback itself (fault: a reaction that
+    fails)"""
+
+
 def _cb(ctx, idx):
     if idx not in ctx.cb_objs:
         def handler(table, _idx=idx):
             ctx.calls.append((_idx, table))
+            if _idx == 3:
+                raise CallbackBoom('callback %d failed' % _idx)
             return None
         ctx.cb_objs[idx] = handler
     return ctx.cb_objs[idx]
@@ -256,6 +263,7 @@ def do_probe(ctx, kind, trigger, form):
     ctx.calls[:] = []
     out = io.StringIO()
     exc = None
+    boom = None
     ret = None
     import biom.err as _err
     saved_stdout = _err.stdout
@@ -270,6 +278,8 @@ def do_probe(ctx, kind, trigger, form):
                     ret = _trip(kind, form) if trigger else _no_trip(form)
                 except TableException as e:
                     exc = e
+                except CallbackBoom as e:
+                    boom = e
     finally:
         _err.stdout = saved_stdout
     where = 'probe(%s, trigger=%s, form=%d) under %r' % (kind, trigger, form,
@@ -278,6 +288,19 @@ def do_probe(ctx, kind, trigger, form):
     printed = out.getvalue()
     called = list(ctx.calls)
     msg = MESSAGES[kind]
+    if boom is not None:
+        # the callback's own exception came out: legitimate only when the
+        # reaction is 'call', the failing callback is the registered one and
+        # it was invoked once; the profile must survive it (checked after
+        # every statement), and later probes must react as configured
+        if want == 'call' and kind in ctx.cbs and len(called) == 1 and \
+                ctx.cb_objs.get(called[0][0]) is ctx.cbs[kind] and \
+                not warned and not printed:
+            ctx.stats['probe.callback_raised'] += 1
+            return 'callback-raised'
+        raise C20Violation('c20.reaction', where + ': a callback raised '
+                           'although it should not have been invoked '
+                           '(callbacks=%r)' % ([c[0] for c in called],))
     if want == 'raise':
         if exc is None:
             raise C20Violation('c20.reaction', where + ': no TableException')
@@ -300,7 +323,8 @@ def do_probe(ctx, kind, trigger, form):
         if kind in ctx.cbs:
             ok = len(called) == 1 and not warned and not printed and \
                 called[0][1] is not None and \
-                type(called[0][1]).__name__ == 'Table'
+                type(called[0][1]).__name__ == 'Table' and \
+                ctx.cb_objs.get(called[0][0]) is ctx.cbs[kind]
         else:
             ok = not warned and not printed and not called
     else:   # ignore / clean
